@@ -43,6 +43,9 @@ def env_fingerprint():
 
 def main():
     spec = json.load(sys.stdin)
+    # the result travels on a private copy of fd 1; whatever the code under test print()s goes to stderr instead
+    result_out = os.fdopen(os.dup(1), "w")
+    os.dup2(2, 1)
     sys.path.insert(0, spec["verif"])
     import logging
     import mimetypes
@@ -62,7 +65,8 @@ def main():
         except Exception as e:
             dig = "exc:" + type(e).__name__
         out.append({"name": d["name"], "digest": dig, "env": env_fingerprint()})
-    json.dump({"env0": fp0, "docs": out}, sys.stdout)
+    json.dump({"env0": fp0, "docs": out}, result_out)
+    result_out.flush()
 
 
 if __name__ == "__main__":
